@@ -28,6 +28,7 @@ package actor
 // forgotten
 //@ func (*workPullingProducerController).endBinding(x, ctx, endpointName, reason)
 //@   closed-heap on
+//@   timeout 60
 //@   requires x.bindings != nil && x.nextWorker >= 0
 //@   preserve workPullingProducerController.pending, workPullingProducerController.bindings, workPullingProducerController.nextWorker, bindingWork.unconfirmed
 //@   loop 1 invariant requeues-in-order: -1 <= rangeindex && rangeindex < len(binding.unconfirmed) && len(requeued) == rangeindex + 1 && x.pending == old(x.pending) && binding.unconfirmed == old(binding.unconfirmed) && x.bindings == old(x.bindings) && forall j int :: 0 <= j && j <= rangeindex ==> requeued[j].messageID == binding.unconfirmed[j].messageID && requeued[j].storeSeq == binding.unconfirmed[j].storeSeq && requeued[j].payload == binding.unconfirmed[j].payload
